@@ -262,16 +262,16 @@ ADDED = {
  "C01": "real sessions with a configured local address (IPv4, IPv6); goroutine-leak probe after every real Server.Close.",
  "C02": "OPEN bodies padded to 4094-4096 octets; reused outbound fsm whose first session negotiated another hold time.",
  "C03": "plugins that write from inside OnEstablished and the handler (Echo); reads returning the last bytes together with EOF; streams that end inside a message (finmid).",
- "C04": "teardowns issued by a writer goroutine right before its own write; Close while the (2 us) handler is at work; a writer that carves bodies back to back from one buffer; no WriteUpdate call lasts longer than 2 s.",
+ "C04": "teardowns issued by a writer goroutine right before its own write; Close while the (2 us) handler is at work; a writer that carves bodies back to back from one buffer; no WriteUpdate call lasts longer than 2 s; real sockets (4 KiB buffers) whose remote stops reading for less than the hold time, for longer than the hold time, and while Server.Close arrives: the byte stream stays whole messages, and ends inside a message only after a NOTIFICATION.",
  "C05": "echoing plugins in the hostile-stream worlds; pair kind with bad-length and bad-marker headers; API programs that call Serve repeatedly, with up to three listeners failing at once.",
  "C06": "busy-handler mode (handler away for longer than the hold time); sessions the remote ends with a Cease; late confirmation in OpenConfirm; slow OnClose (500 ms), slow OnEstablished (300 ms) and a slow socket (three writes in ten take 200 ms, remote 260 ms from the deadline, allowance of three stacked delays) in a third / a third / a fifth of the worlds; local writers at random times.",
- "C07": "mode race-new (second connection appears as the first becomes Established); identifier ties with 4-octet AS numbers; 20 s watch for further dialling once the survivor is Established.",
+ "C07": "mode race-new (second connection appears as the first becomes Established) and mode oc-new (second connection appears while the first waits in OpenConfirm: it is served, and the identifiers decide); identifier ties with 4-octet AS numbers; 20 s watch for further dialling once the survivor is Established.",
  "C08": "plugin goroutines writing bursts while the fault is answered (Storm) and every write by corebgp yielding three times; reads returning data together with EOF and streams ending at the fault with the remote hanging up; marker corruptions next to 0xFF octets in the length/type fields; a remote that does not drain its socket for 6 s (write deadlines honoured by the transport).",
  "C09": "Echo and Storm plugins; bad-length and bad-marker trailers; unexpected OPENs with unacceptable contents; reused fsm with another first hold time.",
- "C10": "stop kinds ListenerFail with three listeners (all failing / only the first) and CloseTwice (overlapping Close calls while Serve takes 300 us to close its listener); connections corebgp had used when the stop was issued judged at the very return; closes that take 100 us or yield 40 times; scripts partial-update, partial-open, handler-writes, open-write-fails; family delete-race (an inbound connection and DeletePeer of its peer at one instant, 40 x per world).",
+ "C10": "stop kinds ListenerFail with three listeners (all failing / only the first) and CloseTwice (overlapping Close calls while Serve takes 300 us to close its listener); connections corebgp had used when the stop was issued judged at the very return; closes that take 100 us or yield 40 times; scripts partial-update, partial-open, handler-writes, open-write-fails, refuse-at-retry (dial refused, Close as the connect-retry timer fires); family delete-race (an inbound connection and DeletePeer of its peer at one instant, 40 x per world).",
  "C11": "fault symbol collide-oc; family retry-race (first dial completes as connect-retry fires, session later ended by a Cease).",
  "C12": "served probes dismissed by Cease / TCP close / reset at random; a new inbound connection at the instant of the protocol error; errors exactly 300 s apart where corebgp sees them at the instants the remote causes them.",
- "C13": "held-down states reached in eight ways (NOTIFICATION in OpenSent, bad header in OpenConfirm, second OPEN in Established, code 7, plugin NOTIFICATION, two-error histories again/long); IPv4-mapped and non-IP address forms; destinations whose text begins like the local address.",
+ "C13": "held-down states reached in eight ways (NOTIFICATION in OpenSent, bad header in OpenConfirm, second OPEN in Established, code 7, plugin NOTIFICATION, two-error histories again/long) and state out-openconfirm (the outbound fsm already in OpenConfirm when a probe arrives); IPv4-mapped and non-IP address forms; destinations whose text begins like the local address.",
  "C14": "plugin handing out the slice it keeps (SharedCaps, compared with a pristine copy); family concurrent (OPENs of four peers at one instant, three goroutines in WriteUpdate); duplicate capabilities; an OPEN built for unrepresentable capabilities must still carry exactly them.",
  "C15": "every optional-parameter total 4..255 in one and two parameters, both directions; Capability.Equal.",
  "C18": "AS_PATH segments without AS numbers in any position.",
